@@ -1067,11 +1067,26 @@ func closeLocalOnce(p *Prog, s panicSite) (bool, string) {
 		}
 	}
 	mine := map[ssa.Value]bool{} // the channels this local can hold
+	mayBeNil := false
 	for _, o := range origins(s.subject) {
+		if isConstNilOrigin(o) || o.Kind == "zero" {
+			mayBeNil = true // excluded below by a dominating test (closing a nil channel panics too)
+			continue
+		}
 		if _, isMk := o.Val.(*ssa.MakeChan); !isMk {
 			return false, ""
 		}
 		mine[o.Val] = true
+	}
+	if len(mine) == 0 {
+		return false, ""
+	}
+	if mayBeNil {
+		subj := trivialPhi(stripConv(s.subject))
+		gcs := newCondSpace(f, recOf(eqAtom("unset", func(v ssa.Value) bool { return trivialPhi(stripConv(v)) == subj || kstr(v) == kstr(subj) }, isNil)), "unset")
+		if imp, _ := gcs.Implies(gcs.Reach(s.in), gcs.Not(gcs.Atom("unset"))); !imp || !gcs.Seen("unset") {
+			return false, ""
+		}
 	}
 	// no other close of this cell's channel in the function or the closures that capture it
 	closes := 0
@@ -1214,4 +1229,21 @@ func freshObject(v ssa.Value) bool {
 		_, isAl := o.Val.(*ssa.Alloc)
 		return isAl && o.Kind == "alloc"
 	})
+}
+
+// trivialPhi: a phi all of whose edges carry the same value is that value.
+func trivialPhi(v ssa.Value) ssa.Value {
+	for i := 0; i < 4; i++ {
+		ph, ok := v.(*ssa.Phi)
+		if !ok || len(ph.Edges) == 0 {
+			return v
+		}
+		for _, e := range ph.Edges[1:] {
+			if e != ph.Edges[0] {
+				return v
+			}
+		}
+		v = stripConv(ph.Edges[0])
+	}
+	return v
 }
